@@ -273,12 +273,13 @@ def m_raw_rows(ex, st, fn, args, kw):
 
 
 def m_validate_row(ex, st, fn, args, kw):
-    env = st.frames[-1].env; k = lift(env["row_count"]).z
+    env = st.frames[-1].env; k = lift(env["_i1"]).z + 1      # the number of the current raw row: iterations of the loop over _raw_rows() so far, plus one (not whatever the code calls its counter)
     ex.obligations.append(Obligation("protocol/validate_row-only-inside-header-limit-window-each-row-once-in-order", st.pc, z3.And(r_val(st, k), G(st, "last_validated") < k), "protocol", props=["C07", "C20", "C04"]))
     ex.obligations.append(Obligation("protocol/validate_row-receives-the-current-raw-row", st.pc, lift(args[0]).z == st.ghost["raw"].at(k - 1), "protocol", props=["C04", "C06", "C07"]))
     st.ghost["last_validated"] = Sym(INT, k)
     ex.obligations.append(Obligation("location/line-is-row-number-minus-1-at-validation", st.pc, lift(st.heap[st.ghost["loc"].oid]["_line"]).z == k - 1, "post", props=["C04", "C05"]))
     ex.obligations.append(Obligation("protocol/all-checks-reset-before-first-validated-row", st.pc, G(st, "resets_done") == G(st, "m"), "protocol", props=["C08", "C20", "C05"]))
+    ex.obligations.append(Obligation("protocol/the-run-is-marked-as-begun-before-the-first-validated-row", st.pc, lift(st.heap[st.ghost["this"].oid]["_has_reset_checks"]).z, "protocol", props=["C08", "C20", "C05"]))
     for s2, b in ex.fork(st, Sym(BOOL, ok(k))):
         if b: yield s2, None
         else:
@@ -309,7 +310,7 @@ def setup_rows(ex, st):
     st.pc.append(until_none.z == so.is_none(vu.z)); st.pc.append(z3.Implies(z3.Not(until_none.z), so.val(vu.z) == until.z))
     # pre-state of the counters and of the checks is arbitrary: whatever an earlier run (finished, failed, abandoned) left behind
     self = Ref("Reader"); st.heap[self.oid] = {"_cid": cid, "_location": loc, "_on_error": mode, "_validate_until": vu, "accepted_rows_count": fresh(Opt(INT), "acc0")[0],
-                                              "rejected_rows_count": fresh(Opt(INT), "rej0")[0], "_is_closed": False}
+                                              "rejected_rows_count": fresh(Opt(INT), "rej0")[0], "_is_closed": False, "_has_reset_checks": fresh(BOOL, "begun0")[0]}
     st.frames[-1].env["self"] = self
     st.ghost.update({"raw": raw, "header": header, "until": until, "until_none": until_none, "m": m, "loc": loc, "resets_done": 0, "last_validated": 0,
                      "out_rows": Sym(SeqRow, z3.Empty(sort_of(SeqRow))), "n_err": 0, "mode": mode, "this": self, "fault": False, "fault_exc": None, "fail_at": fresh(INT, "fail_at")[0]})
@@ -323,6 +324,9 @@ def setup_rows(ex, st):
     def before_flag(ex_, s):
         ex_.obligations.append(Obligation("protocol/the-reader-marks-its-checks-as-reset-only-after-resetting-every-one-of-them", s.pc, G(s, "resets_done") == G(s, "m"), "protocol", props=["C08", "C05", "C20"]))
     ex.stmt_hooks_before["self._has_reset_checks = True"] = before_flag
+    # rows() may as well leave both, the resetting and the flag, to _reset_checks() (model below, from that method's own verified contract);
+    # that the flag is raised at all is a clause of its own (at the first validated row and at the end)
+    ex.hooks_optional = set(getattr(ex, "hooks_optional", ())) | {"self._has_reset_checks = True"}
 
 
 def sf_outc(ex, st, k): return Sym(SeqRow, outc(lift(k).z))
@@ -347,7 +351,8 @@ def rows_contract():
             Clause("implies(mode == 'yield', n_err == cnt_rej(%s))" % N, "yield-mode-one-error-per-rejected-row", props=["C06"]),
             Clause("implies(mode != 'yield', n_err == 0)", "no-error-objects-outside-yield-mode", props=["C06"]),
             Clause("loc._line == %s" % N, "location-advanced-once-per-raw-row", props=["C04", "C05"]),
-            Clause("resets_done == m", "every-check-reset-exactly-once", props=["C08", "C20"])],
+            Clause("resets_done == m", "every-check-reset-exactly-once", props=["C08", "C20"]),
+            Clause("this._has_reset_checks", "the-run-is-marked-as-begun", props=["C08", "C20", "C05"])],
         raises={"DataError": [Clause("fault or mode == 'raise'", "a-row-rejection-propagates-only-in-raise-mode", props=["C06", "C18"]),
                               Clause("implies(not fault, 0 <= _i1 and _i1 < len(raw) and rejd(_i1 + 1) and norej(_i1))", "raised-at-the-first-rejected-row", props=["C06", "C07", "C18"]),
                               Clause("out_rows == outc(_i1)", "rows-before-the-stop-were-yielded", props=["C06"]),
@@ -365,8 +370,17 @@ def rows_contract():
         }, expect=["return", "DataError"], n_loops=2)
 
 
+def m_reset_checks_in_rows(ex, st, recv, args, kw):
+    """contract of BaseValidator._reset_checks (verified: validio.BaseValidator._reset_checks), for a rows() that calls it instead of resetting by itself:
+    every check reset once, in declaration order, the run marked as begun"""
+    ex.obligations.append(Obligation("protocol/reset-each-check-once-in-order", st.pc, G(st, "resets_done") == 0, "protocol", props=["C08", "C20"]))
+    st.ghost["resets_done"] = st.ghost["m"]; st.heap[recv.oid]["_has_reset_checks"] = True
+    yield st, None
+
+
 def rows_callees():
-    return {"validio.Reader._raw_rows": ModelContract(m_raw_rows), "validio.BaseValidator.validate_row": ModelContract(m_validate_row), "abs:Check.reset": AbsContract(m_reset)}
+    return {"validio.Reader._raw_rows": ModelContract(m_raw_rows), "validio.BaseValidator.validate_row": ModelContract(m_validate_row), "abs:Check.reset": AbsContract(m_reset),
+            "ref:Reader._reset_checks": m_reset_checks_in_rows}
 
 
 class _ListReader:
